@@ -443,6 +443,65 @@ def body_parametric_ids(env):
     env.holds('one parametric data table per grouped type', len(s_._parametric['data']) == len(to_group))
 
 
+def body_input_orifice(env):
+    """Orificing._setup_input_orifice (glue between distribute() and the next sweep): the flow rate computed for row i of the
+    group table reaches the assembly whose id that row carries (rows are ordered by the grouping parameter, not by id, and
+    ungrouped / empty positions lie in between), so that all members of a group really run with the group's flow; ungrouped
+    assemblies get the flow that meets the outlet-temperature target for their own power; every other position is left on
+    the outlet-temperature condition."""
+    ids = list(env.params['ids'])          # assembly id per row of group_data
+    ng = list(env.params.get('ng', ()))    # ungrouped assemblies
+    empty = set(env.params.get('empty', ()))
+    npos = env.params['npos']
+    with env.patch(MODS):
+        m = [env.pos('m_row%d' % i, hi=1e4) for i in range(len(ids))]
+        t_out, t_in = 773.15, 623.15
+        cp = env.pos('heat_capacity', hi=1e5)
+
+        class _Cool:
+            heat_capacity = cp
+            temperature = t_in
+
+            def update(self, T):
+                self.temperature = T
+        by = [([] if p in empty else ['type%d' % (p % 2), [0, p], {'outlet_temp': t_out}]) for p in range(npos)]
+        inp = StubSelf(data={'Assignment': {'ByPosition': by}, 'Core': {'coolant_material': 'na', 'coolant_inlet_temp': t_in}},
+                       materials={'na': _Cool()}, path='somewhere')
+        gd = np.zeros((len(ids), 4))
+        gd[:, 0] = ids
+        s_ = StubSelf(_bind=(om.Orificing, ['_setup_input_orifice']), group_data=gd, _setup_input_perfect=lambda: inp,
+                      orifice_input={'bulk_coolant_temp': t_out})
+        pw = []
+        if ng:
+            ngp = np.empty((len(ng), 2), dtype=object)
+            for k, a in enumerate(ng):
+                ngp[k, 0] = float(a)
+                pw.append(env.pos('power_ungrouped%d' % k, hi=1e8))
+                ngp[k, 1] = pw[-1]
+            if env.mode == 'replay':
+                ngp = ngp.astype(float)
+            s_._ng_power = ngp
+        out = s_._setup_input_orifice(m)
+        got = out.data['Assignment']['ByPosition']
+        env.holds('one entry per core position', len(got) == npos)
+        for i, a in enumerate(ids):
+            bc = got[a][2] if got[a] else {}
+            env.holds('assembly %d (row %d of the group table) runs on a flow-rate condition' % (a, i), list(bc.keys()) == ['flowrate'],
+                      key='group_flow_given_to_another_assembly')
+            env.eq('assembly %d (row %d of the group table) gets the flow rate of its own row' % (a, i), bc.get('flowrate', 0.0), m[i],
+                   key='group_flow_given_to_another_assembly')
+        for k, a in enumerate(ng):
+            bc = got[a][2] if got[a] else {}
+            env.eq('ungrouped assembly %d gets the flow that meets the outlet temperature target for its own power' % a,
+                   bc.get('flowrate', 0.0) * cp * (t_out - t_in), pw[k], tol=1e-9, key='group_flow_given_to_another_assembly')
+        for p in range(npos):
+            if p in empty:
+                env.holds('empty position %d stays empty' % p, got[p] == [])
+            elif p not in ids and p not in ng:
+                env.holds('assembly %d (neither grouped nor listed as ungrouped) keeps the outlet-temperature condition' % p,
+                          list(got[p][2].keys()) == ['outlet_temp'], key='group_flow_given_to_another_assembly')
+
+
 def instances(tier):
     inst = []
     combos = [(2, 1), (2, 2), (3, 2), (3, 3)] if tier == 'quick' else [(2, 1), (2, 2), (3, 1), (3, 2), (3, 3), (4, 2), (4, 3)]
@@ -481,6 +540,11 @@ def instances(tier):
                                       (['inner', 'outer', 'outer', 'inner', 'outer', 'outer', 'inner'], ['outer', 'inner']),
                                       (['a', 'b', 'c', 'c', 'b', 'a', 'b'], ['c', 'a', 'b']), (['a'] * 5, ['a']))):
         inst.append(dict(label='parametric-ids[loading %d]' % k, body=body_parametric_ids, params={'core': core_, 'to_group': grp}, check_vacuity=False))
+    for k, (ids, ng_, empty, npos) in enumerate((((4, 1, 6, 2), (), (), 7), ((5, 2, 3), (0, 6), (1,), 7), ((0, 1, 2), (), (), 3),
+                                                 ((6, 3), (4, 1), (0, 2), 8), ((2, 0, 1, 5, 4, 3), (), (), 6))):
+        inst.append(dict(label='orifice-input[rows=%s,ungrouped=%s,empty=%s]' % ('-'.join(map(str, ids)), '-'.join(map(str, ng_)) or 'none',
+                                                                                 '-'.join(map(str, empty)) or 'none'),
+                         body=body_input_orifice, params={'ids': ids, 'ng': ng_, 'empty': empty, 'npos': npos}))
     return inst
 
 
